@@ -1,7 +1,57 @@
 import A2Verif.Model.Hex
-/-! driver family `c12fs` (stub until the family is built) -/
+import A2Verif.Model.C12FsId
+/-!
+driver family `c12fs` (stateless): outcome classes of identification, mount and the read-only queries of one
+file-system module on one image, from the concrete panic-explicit models.
+
+  c12fs pas <units> <i:hex,…> <getnames> <fixed>
+     → `id=T:ok|id=F:ok|id:panic mount:ok stat:<c> cat:<c> tree:<c> glob:<c> get:<hexname>:<c> …`
+
+`<units>` = number of units of the flat image, `<i:hex,…>` = the units that are not all zero (`-` = none),
+`<getnames>` = hex names (comma separated, `-` = none) whose `get` the harness called, `<fixed>` = `1` if the real
+code has the repair (probed by the harness on the witness image), `<c>` ∈ ok | err | panic.
+-/
 namespace A2Verif.Drv.C12Fs
 
-def handle (_toks : List String) : String := "bad-request"
+def parseUnits (n unitLen : Nat) (s : String) : Option (Array (List Nat)) :=
+  let blank : Array (List Nat) := Array.replicate n (List.replicate unitLen 0)
+  if s == "-" then some blank else
+  (s.splitOn ",").foldlM (fun (a : Array (List Nat)) it =>
+    match it.splitOn ":" with
+    | [i, h] =>
+      match i.toNat?, Hex.ofHex h with
+      | some k, some b => if k < a.size then some (a.set! k b) else none
+      | _, _ => none
+    | _ => none) blank
+
+def parseNames (s : String) : Option (List (String × List Nat)) :=
+  if s == "-" then some [] else (s.splitOn ",").mapM (fun h => (Hex.ofHex h).map (fun b => (h, b)))
+
+section Pas
+open A2Verif.Fs.Pascal A2Verif.C12FsId.Pascal
+
+def pasCls {α : Type} (x : R α) : String := (cls x).token
+
+def pas (r : Raw) (names : List (String × List Nat)) (fixed : Bool) : String :=
+  let idTok := match testImg r with
+    | .ok true => "id=T:ok"
+    | .ok false => "id=F:ok"
+    | .error _ => "id:panic"
+  let gets := names.map (fun (h, nm) => s!"get:{h}:{pasCls (getV fixed r nm)}")
+  " ".intercalate ([idTok, "mount:ok", s!"stat:{pasCls (statV fixed r)}", s!"cat:{pasCls (catalogV fixed r)}",
+    s!"tree:{pasCls (treeV fixed r)}", s!"glob:{pasCls (globV fixed r)}"] ++ gets)
+
+end Pas
+
+def handle (toks : List String) : String :=
+  match toks with
+  | ["pas", n, units, names, fixed] =>
+    match n.toNat?, parseNames names with
+    | some n, some names =>
+      match parseUnits n 512 units with
+      | some us => pas { unitLen := 512, units := us } names (fixed == "1")
+      | none => "bad-request"
+    | _, _ => "bad-request"
+  | _ => "bad-request"
 
 end A2Verif.Drv.C12Fs
